@@ -110,6 +110,16 @@ def run_live(ctx, P):
             agree(ctx, "after recalculate", ind, hx, names)
             hx.calculate_index(ind.name, -1)
             agree(ctx, "after calculate_index(-1)", ind, hx, names)
+            # only the newest candle computed, the rest filled in afterwards: the walk passes candles that already hold a reading
+            hx.purge(ind.name)
+            hx.calculate_index(ind.name, -1)
+            agree(ctx, "after purge+calculate_index(-1)", ind, hx, names)
+            hx.calculate()
+            agree(ctx, "after purge+calculate_index(-1)+calculate", ind, hx, names)
+            hx.purge(ind.name)
+            ind.calculate_index(0, 2)
+            hx.calculate()
+            agree(ctx, "after purge+calculate_index(0,2)+calculate", ind, hx, names)
     ctx.observe("final", ind.as_list())
 
 
